@@ -78,6 +78,9 @@ type EditEvent struct {
 	// cache validation, between reading and installing). Step is then filled in by the fs when the edit fires.
 	AtCall int    `json:"at_call,omitempty"`
 	On     string `json:"on,omitempty"`
+	// StallUnlocks > 0 (with AtCall): the task whose access triggered the edit is held back right after its
+	// StallUnlocks-th lock release from then on, until no other task can run (simrt.StallCurrentAfterUnlocks).
+	StallUnlocks int `json:"stall_unlocks,omitempty"`
 }
 
 // FaultSpec makes the N-th (1-based) fs call of operation Op fail.
